@@ -267,6 +267,98 @@ def policy_edges(chk, name, h, w, klass, limit, flags):
                                           {"schemes": order, "stored": stored, "secret_type": type(secret).__name__})
 
 
+def size_and_form_edges(chk, name, h, w, klass, flags):
+    """a password of exactly the maximum size is still a password; a text password and its UTF-8 bytes are the same password -
+    also when the format prepares the text first (SASLprep)"""
+    if klass in ("dis",) or "p" in flags:
+        return
+    ctxkw = {}
+    if "u" in flags:
+        ctxkw["user"] = "user"
+    if "r" in flags:
+        ctxkw["realm"] = "realm"
+    base = cheap_settings(name, h)
+    try:
+        hh = h.using(**base) if base else h
+    except Exception:
+        return
+    from passlib.utils import MAX_PASSWORD_SIZE
+    if klass in ("exact", "exact_nulrej", "fold", "blanks") and name not in ("scram",) and "t" not in flags and "e" not in flags:
+        big = b"x" * (MAX_PASSWORD_SIZE - 1) + b"y"
+        chk.count((name, "max-size"))
+        chk.action("max-size")
+        try:
+            st = hh.hash(big, **ctxkw)
+            res = (hh.verify(big, st, **ctxkw), hh.verify(big[:-1] + b"z", st, **ctxkw), hh.verify(big[:-1], st, **ctxkw))
+        except Exception as e:
+            res = error_class(e)
+        chk.evaluations += 3
+        if res != (True, False, False):
+            chk.violation(f"{name}:max-size:{res}", f"{name}: a password of exactly {MAX_PASSWORD_SIZE} bytes (the documented maximum): hash/verify gave {res}, spec (True, False, False)", {"hasher": name})
+    if "e" not in flags and klass in ("exact", "exact_nulrej"):
+        for text in ("I\u2168 e\u0301", "caf\xe9 \u20ac", "x\u00ady\u2113"):
+            chk.count((name, "text-vs-bytes"))
+            chk.action("text-vs-bytes")
+            raw = text.encode("utf-8")
+            try:
+                a, b = hh.hash(text, **ctxkw), hh.hash(raw, **ctxkw)
+                res = (hh.verify(raw, a, **ctxkw), hh.verify(text, b, **ctxkw), hh.verify(raw + b"!", a, **ctxkw))
+            except Exception as e:
+                if "t" in flags:
+                    continue          # text-only formats may refuse bytes that are not plain ASCII
+                res = error_class(e)
+            chk.evaluations += 3
+            if res != (True, True, False):
+                chk.violation(f"{name}:text-vs-bytes:{res}", f"{name}: the text password {text!r} and its UTF-8 bytes verify against each other's hashes as {res}", {"hasher": name, "text": text})
+
+
+FIRST_USE_CHILD = r'''
+import sys, json, warnings, logging
+warnings.simplefilter("ignore"); logging.disable(logging.WARNING)
+sys.path.insert(0, %r)
+name, order = json.loads(sys.stdin.read())
+from passlib import registry
+h = registry.get_crypt_handler(name)
+kw = {"rounds": 4} if "rounds" in h.setting_kwds else {}
+out = []
+if order == "hash-first":
+    s = h.using(**kw).hash("first pw")
+    out = [h.verify("first pw", s), h.verify("other", s)]
+else:
+    good = %r[name]
+    out = [h.verify("first pw", good), h.verify("other", good)]
+print(json.dumps(out))
+'''
+
+
+def first_use_edges(chk):
+    """the very first operation of a fresh interpreter (nothing loaded yet) on hashers layered over a lazily loaded backend"""
+    import subprocess
+    import sys
+    import json as _json
+    from passlib import registry
+    names = ["bcrypt_sha256", "django_bcrypt_sha256", "bcrypt", "ldap_bcrypt"]
+    good = {}
+    for n in names:
+        try:
+            good[n] = registry.get_crypt_handler(n).using(rounds=4).hash("first pw")
+        except Exception:
+            pass
+    for n in good:
+        for order in ("hash-first", "verify-first"):
+            chk.count((n, "first-use", order))
+            chk.action("first-use")
+            src = FIRST_USE_CHILD % (chk.repo, good)
+            p = subprocess.run([sys.executable, "-c", src], input=_json.dumps([n, order]), capture_output=True, text=True, timeout=120)
+            try:
+                res = _json.loads(p.stdout.strip().splitlines()[-1])
+            except Exception:
+                res = ["child failed", p.stderr[-200:]]
+            chk.evaluations += 2
+            if res != [True, False]:
+                chk.violation(f"{n}:first-use:{order}", f"{n}: as the first operation of a fresh interpreter ({order}) the right / a wrong password verify as {res}", {"hasher": n, "order": order})
+
+
 def encoding_edges(chk, name, h, flags):
     """hashers taking an `encoding` context keyword: a text password and its encoded bytes are the same password"""
     if "encoding" not in getattr(h, "context_kwds", ()):
@@ -309,6 +401,8 @@ def run_shared(chk, focus):
     if focus == "C05":
         hs = [(n, h) for n, h in hs if TABLE.get(n, DEFAULT)[0] in ("des", "trunc", "lm", "reject", "des_all") or n in ("md5_crypt", "sha256_crypt", "pbkdf2_sha256", "hex_sha1", "mysql41", "plaintext", "sha512_crypt", "scram", "nthash", "ldap_salted_sha1", "unix_disabled", "django_disabled", "apr_md5_crypt")] + \
              [(n, h) for n, h in hs if TABLE.get(n, DEFAULT)[0] == "exact_nulrej" and n not in ("md5_crypt", "sha256_crypt", "sha512_crypt")]
+    if focus == "C01":
+        first_use_edges(chk)
     cases = {}
     per_hasher = (12 if quick else 60) if focus == "C01" else (9 if quick else 80)
     for name, h in hs:
@@ -318,6 +412,7 @@ def run_shared(chk, focus):
             edge_passwords(chk, name, h, w, klass, flags)
             if klass == "exact":          # (case-folding formats treat text and bytes differently by design)
                 encoding_edges(chk, name, h, flags)
+            size_and_form_edges(chk, name, h, w, klass, flags)
         else:
             policy_edges(chk, name, h, w, klass, limit, flags)
         if getattr(w, "truncate_size", None) and klass not in ("des", "trunc", "lm", "reject", "trunc_nulok"):
